@@ -117,6 +117,7 @@ Proof.
   intros vs trace. induction f; intros i Hi.
   - simpl. now rewrite (nth_map_lt _ _ _ _ i false []).
   - simpl. now rewrite (nth_map_lt _ _ _ _ i false []).
+  - simpl. now rewrite (nth_map_lt _ _ _ _ i false []).
   - simpl. rewrite (nth_map_lt _ _ _ _ i false false)
       by (now rewrite length_semL). now rewrite IHf.
   - simpl. rewrite (nth_map2 _ _ _ _ _ _ i false false false)
@@ -215,12 +216,17 @@ Lemma evalI_resolve : forall names f cur nxt ec en,
   (forall v, ec v = lk names cur v) -> (forall v, en v = lk names nxt v) ->
   evalI cur nxt (resolve names f) = evalA ec en f.
 Proof.
-  intros names. induction f; simpl; intros cur nxt ec en Hc Hn; auto.
-  - rewrite Hc. unfold lk. destruct (index_of v names); auto.
-  - now rewrite (IHf cur nxt ec en).
-  - now rewrite (IHf1 cur nxt ec en), (IHf2 cur nxt ec en).
-  - now rewrite (IHf1 cur nxt ec en), (IHf2 cur nxt ec en), (IHf3 cur nxt ec en).
-  - now apply IHf.
+  intros names. induction f; intros cur nxt ec en Hc Hn.
+  - simpl. rewrite Hc. unfold lk. destruct (index_of v names); auto.
+  - simpl. rewrite Hc. unfold lk. destruct (index_of a names); auto.
+  - reflexivity.
+  - simpl. now rewrite (IHf cur nxt ec en).
+  - simpl. now rewrite (IHf1 cur nxt ec en), (IHf2 cur nxt ec en).
+  - simpl. now rewrite (IHf1 cur nxt ec en), (IHf2 cur nxt ec en), (IHf3 cur nxt ec en).
+  - simpl. now apply IHf.
+  - reflexivity.
+  - reflexivity.
+  - reflexivity.
 Qed.
 
 (* ------------------------------------------------- states of the sequence *)
@@ -298,23 +304,23 @@ Proof.
     r_i_formula r_m_init r_m_trans r_m_formula].
   set (T := x_testers M) in *. rewrite HN.
   set (names := (map t_name T ++ vs)%list).
-  set (sts := states (map (fun t => semL vs (t_tracks t) trace) T) trace).
+  remember (states (map (fun t => semL vs (t_tracks t) trace) T) trace) as sts eqn:ES.
   set (sigma := sigma_of vs trace).
   set (rho := comb (map t_name T) sigma (canon T sigma)).
-  assert (LS : length sts = length trace) by apply length_states.
+  assert (LS : length sts = length trace) by (rewrite ES; apply length_states).
   assert (EV : forall i j g, i < length trace -> j < length trace ->
             evalI (nth i sts []) (nth j sts []) (resolve names g)
             = evalA (rho i) (rho j) g).
-  { intros i j g Hi Hj. unfold sts. rewrite !nth_states by auto.
+  { intros i j g Hi Hj. rewrite ES. rewrite !nth_states by auto.
     apply evalI_resolve; intros v; unfold rho, sigma; now apply state_env. }
+  clear ES.
   destruct (length trace) as [|m] eqn:EL.
   - destruct sts; [reflexivity|discriminate].
-  - destruct sts as [|s0 rest] eqn:ES; [discriminate|].
-    assert (E0 : s0 = nth 0 sts []) by (now rewrite ES). rewrite <- ES.
-    rewrite E0. unfold eval.
-    rewrite !(EV 0 0) by lia.
+  - destruct sts as [|s0 rest]; [discriminate|].
+    pose proof (EV 0 0) as EV0. cbn [nth] in EV0.
+    unfold eval. rewrite !EV0 by lia.
     rewrite all_steps_spec, LS. replace (S m - 1) with m by lia.
-    rewrite (forallb_nth _ _ (combine sts (semL vs f trace)) ([], false)).
+    rewrite (forallb_nth _ _ (combine (s0 :: rest) (semL vs f trace)) ([], false)).
     rewrite combine_length, LS, length_semL, EL, Nat.min_id.
     f_equal; [f_equal|].
     + apply forallb_ext_in. intros i Hi. apply in_seq in Hi.
